@@ -332,3 +332,22 @@ func OLoop(a int) int {
 	}
 	return x
 }
+
+// GenF is a generic function; GenInt is the instantiation that is mocked (through its function value),
+// CallGen calls it directly (original: a + 700).
+//
+//go:noinline
+func GenF[T any](a int) int {
+	if a > 1<<50 {
+		return a*700 - 3
+	}
+	return a + 700
+}
+
+// GenInt is GenF[int] as a function value.
+var GenInt = GenF[int]
+
+// CallGen calls the instantiation directly.
+//
+//go:noinline
+func CallGen(a int) int { return GenF[int](a) }
